@@ -417,9 +417,9 @@ fn run(opts: &Opts, acc: &mut Acc) {
         });
     }
     let n = match (opts.tier, opts.is_dbg()) {
-        (crate::engine::Tier::Quick, _) => 6_000,
-        (_, false) => 200_000,
-        (_, true) => 20_000,
+        (crate::engine::Tier::Quick, _) => 150_000,
+        (_, false) => 1_500_000,
+        (_, true) => 150_000,
     };
     random_genomes(acc, opts, "random", n, 200, |gn, a| {
         let mut g = G::new(gn);
@@ -427,7 +427,7 @@ fn run(opts: &Opts, acc: &mut Acc) {
         check_case(&c, "random", a)
     });
     if !opts.is_dbg() {
-        let n = opts.tier.pick(300, 5_000);
+        let n = opts.tier.pick(1_500, 5_000);
         random_genomes(acc, opts, "maps-random", n, 64, |gn, a| {
             let mut g = G::new(gn);
             let nk = 4 + g.below(5);
